@@ -326,6 +326,12 @@ def eval_c08(case, oFile, oRules, a, oConfig, events):
         culprit = _c08_culprit(case, a, oConfig, mode="reject")
         out["violations"].append({"key": "%s:output-rejected" % culprit, "detail": {"msg": str(e)[:300]}})
         return out
+    except harness.CpuTimeout:
+        raise
+    except Exception as e:
+        culprit = _c08_culprit(case, a, oConfig, mode="reject")
+        out["violations"].append({"key": "%s:output-crashes-parser:%s" % (culprit, type(e).__name__), "detail": {"trace": traceback.format_exc()[-600:]}})
+        return out
     out["nontrivial"] = True
     m2 = _model(f2)
     if m != m2:
@@ -421,6 +427,10 @@ def eval_c09(case, text1, a, oConfig):
             f, r = _fresh(t, a, oConfig)
         except exceptions.ClassifyError:
             return out  # rejected output is C08's finding
+        except harness.CpuTimeout:
+            raise
+        except Exception:
+            return out  # output that crashes the parser: C08 / C19
         sink = effects.EffectSink()
         if p == 2:
             monitors.Instrument(f, r, [sink])
